@@ -126,7 +126,7 @@ def row_wrappers(ctx, ld):
     run.check(ok, 'R12', lim.where, lim.qualname, 'yield row k, stop as soon as k rows were yielded and k >= limit_rows',
               'the limiter does not deliver exactly the first limit_rows rows', detail=how)
     # the limiter is only installed for a truthy limit (limit 0/None = no limit), checked in WRAP
-    stp = ld.methods['stripper']
+    stp = ctx.N(ld.methods['stripper'])
     loop, var, _ = observers.single_row_loop(ctx, stp)
     sigs = rowloop_signature(stp, loop, var)
     ok = all([k for k, _ in s.yields] == ['identity'] and s.term == FALL for s in sigs)
@@ -170,7 +170,7 @@ def row_wrappers(ctx, ld):
         '{_k: str(_v) for (_k, _v) in _r.items()}'))
     run.check(ok, 'R12', sg.where, sg.qualname, '{k: v if isinstance(v, str) else str(v) for k, v in row.items()}',
               'the string strategy can emit a value that is not a str (found %s)' % (u(e) if e is not None else 'no single yield'))
-    mv = ld.methods['missing_values_extractor']
+    mv = ctx.N(ld.methods['missing_values_extractor'])
     loop, var, _ = observers.single_row_loop(ctx, mv)
     sigs = rowloop_signature(mv, loop, var)
     ok = all([k for k, _ in s.yields] == ['identity'] and s.term == FALL for s in sigs)
@@ -258,8 +258,11 @@ def headers_and_tables(ctx, ld):
             run.check(isinstance(a, ast.Lambda) and u(a.body) == a.args.args[1].arg, 'R23', init.where, init.qualname,
                       'CAST_DO_NOTHING: identity', 'the do-nothing cast strategy alters the stream')
             b = tab['self.CAST_WITH_SCHEMA']
-            run.check(isinstance(b, ast.Lambda) and u(b.body) == 'schema_validator(%s, %s, on_error=on_error)' %
-                      (b.args.args[0].arg, b.args.args[1].arg), 'R23', init.where, init.qualname,
+            okb = (isinstance(b, ast.Lambda) and len(b.args.args) == 2 and
+                   u(b.body) == 'schema_validator(%s, %s, on_error=on_error)' % (b.args.args[0].arg, b.args.args[1].arg)) or \
+                match_expr('functools.partial(schema_validator, on_error=on_error)', b) is not None or \
+                match_expr('partial(schema_validator, on_error=on_error)', b) is not None
+            run.check(okb, 'R23', init.where, init.qualname,
                       'CAST_WITH_SCHEMA: schema_validator(res, it, on_error=on_error)', 'schema casting ignores on_error')
             c = tab['self.CAST_TO_STRINGS']
             run.check(isinstance(c, ast.Lambda) and u(c.body) == 'self.stringer(%s)' % c.args.args[1].arg, 'R23', init.where,
@@ -309,20 +312,53 @@ def selection(ctx, ld):
         ok = ok and seen_pol == {True, False}
     run.check(ok, 'SEL', sp.where, sp.qualname, 'datapackage: if match(resource.name): descriptors.append; iterators.append',
               'descriptor and iterator lists of a loaded data package are not filled under the same selection')
-    # tuple branch
-    dl = [n for n in ast.walk(sp.node) if isinstance(n, ast.For) and u(n.iter) == "datapackage_descriptor['resources']"]
+    # tuple branch: for d in <pair descriptor>['resources']: if matcher.match(d['name']): descriptors.append(d)
+    dl = [n for n in ast.walk(sp.node) if isinstance(n, ast.For) and isinstance(n.target, ast.Name) and
+          match_expr("__DP['resources']", n.iter) is not None and
+          any(match_expr('self.resource_descriptors.append(%s)' % n.target.id, c) is not None for c in ast.walk(n))]
     ok = len(dl) == 1
     pol_d = None
+    mname = dpx = None
     if ok:
-        conds = [n for n in dl[0].body if isinstance(n, ast.If)]
-        ok = len(conds) == 1 and u(conds[0].test) == "resource_matcher.match(%s['name'])" % dl[0].target.id and \
-            u(conds[0].body[0].value) == 'self.resource_descriptors.append(%s)' % dl[0].target.id
+        dv_ = dl[0].target.id
+        dpx = u(dl[0].iter.value)
+        seen_pol = set()
+        for p_ in _En(where=sp.qualname).body_paths(dl[0]):
+            pol_ = None
+            for t, pol in p_.guards():
+                t, pol = norm_compare(t, pol)
+                e_ = match_expr("_m.match(%s['name'])" % dv_, t)
+                if e_ is not None:
+                    pol_ = pol
+                    mname = e_['_m']
+                else:
+                    ok = False
+            apps = [c for c in _pn(p_) if match_expr('self.resource_descriptors.append(%s)' % dv_, c) is not None]
+            ok = ok and pol_ is not None and (len(apps) == 1 if pol_ else not apps)
+            seen_pol.add(pol_)
+        ok = ok and seen_pol == {True, False}
         pol_d = True
     run.check(ok, 'SEL', sp.where, sp.qualname, "pair: descriptors selected by match(descriptor['name'])",
               'descriptors of a (descriptor, iterators) pair are not selected by the matcher')
-    # iterators: generator expression or generator function over zip(resource_iterator, resources)
+    # iterators: generator expression or generator function over zip(<pair iterators>, <pair descriptor>['resources'])
     its = [v for v in facts.values_of('self.iterators') if not (isinstance(v, ast.List) and not v.elts)]
-    tuple_its = [v for v in its if 'resource_iterator' in u(v)]
+
+    def resolves_to_resources(e_):
+        """is e_ (possibly through one local) <pair descriptor>['resources']?"""
+        if dpx is None:
+            return False
+        if match_expr("%s['resources']" % dpx, e_) is not None:
+            return True
+        if isinstance(e_, ast.Name):
+            return any(match_expr("%s['resources']" % dpx, v_) is not None for v_ in facts.values_of(e_.id))
+        return False
+    tuple_its = []
+    for v in its:
+        if isinstance(v, ast.GeneratorExp) and isinstance(v.generators[0].iter, ast.Call) and u(v.generators[0].iter.func) == 'zip' \
+                and len(v.generators[0].iter.args) == 2 and resolves_to_resources(v.generators[0].iter.args[1]):
+            tuple_its.append(v)
+        elif isinstance(v, ast.Call) and len(v.args) == 3 and resolves_to_resources(v.args[1]) and pseudo(v.args[2]) == mname:
+            tuple_its.append(v)
     if len(tuple_its) != 1:
         raise AnalysisError('load: iterator selection for the (descriptor, iterators) pair not found')
     v = tuple_its[0]
@@ -330,9 +366,8 @@ def selection(ctx, ld):
     sel_ok = False
     if isinstance(v, ast.GeneratorExp):
         g = v.generators[0]
-        sel_ok = isinstance(g.iter, ast.Call) and u(g.iter.func) == 'zip' and \
-            [pseudo(a) for a in g.iter.args] == ['resource_iterator', 'resources'] and len(g.ifs) == 1 and \
-            u(g.ifs[0]) == "resource_matcher.match(%s['name'])" % g.target.elts[1].id and pseudo(v.elt) == g.target.elts[0].id
+        sel_ok = isinstance(g.iter, ast.Call) and u(g.iter.func) == 'zip' and len(g.ifs) == 1 and isinstance(g.target, ast.Tuple) and \
+            match_expr("%s.match(%s['name'])" % (mname, g.target.elts[1].id), g.ifs[0]) is not None and pseudo(v.elt) == g.target.elts[0].id
         drained = False      # a filtering generator expression cannot consume what it skips
         where_ = where(repo, v)
         construct = u(v)
@@ -347,16 +382,17 @@ def selection(ctx, ld):
             rv, dv = [t.id for t in lp[0].target.elts]
             ffacts = Facts(f, include_nested=False)
             for p in Enumerator(where=f.qualname).body_paths(lp[0]):
-                m = [pol for t, pol in p.guards() if '.match(' in u(t) and "%s['name']" % dv in u(t)]
+                from sa.model import norm_compare as _nc
+                m = [pol for t, pol in [_nc(t_, pol_) for t_, pol_ in p.guards()] if '.match(' in u(t) and "%s['name']" % dv in u(t)]
                 if len(m) != 1:
                     sel_ok = False
                     continue
                 ys = [y for y in path_nodes(p) if isinstance(y, ast.Yield)]
                 dr = [c for c in path_nodes(p) if isinstance(c, ast.Call) and is_drain_call(res, c) and pseudo(c.args[0]) == rv]
                 if m[0]:
-                    sel_ok = sel_ok and len(ys) == 1 and pseudo(ys[0].value) == rv and not dr
+                    sel_ok = sel_ok and len(ys) == 1 and pseudo(ys[0].value) == rv and not dr and p.term in (FALL, 'continue')
                 else:
-                    sel_ok = sel_ok and not ys
+                    sel_ok = sel_ok and not ys and p.term in (FALL, 'continue')
                     drained = bool(dr)
         where_ = f.where
         construct = 'selector ' + f.qualname
